@@ -18,8 +18,11 @@ for d in sorted(glob.glob(V + "/seeded/*/")):
         continue
     pid = re.match(r"C\d+", str(meta["property"] if isinstance(meta["property"], str) else meta["property"][0])).group(0)
     res = {}
+    others = []
     try:
-        res = json.load(open(d + "result.json"))["results"].get(pid, {})
+        allres = json.load(open(d + "result.json"))["results"]
+        res = allres.get(pid, {})
+        others = [k for k, v in allres.items() if k != pid and v.get("caught")]
     except Exception:
         pass
     caught = res.get("caught")
@@ -32,6 +35,8 @@ for d in sorted(glob.glob(V + "/seeded/*/")):
             nl = (r.get("no_longer_checks") or [{}])[0]
             how = "%s broken (%s), no failing input found" % (nl.get("kind"), nl.get("stream") or str((nl.get("problems") or [""])[0])[:80])
     st = "caught" if caught else ("MISSED" if caught is False else "not run")
+    if others:
+        how = (how + "; " if how else "") + "also caught by the check of " + ", ".join(others)
     seed_rows.append("| %s | %s | %s | %s | %s | %s |" % (sid, pid, str(meta.get("breaks", ""))[:150].replace("|", "/"),
                      str(meta.get("needs", ""))[:140].replace("|", "/"), st, how))
 
